@@ -60,3 +60,28 @@ CLAIMS = {
              "over containers x transports x thread counts x BGZF layouts x repeats and all stdout bytes / exit classes must coincide and equal the model's output.",
         note=NOTE_COMMON + " Thread interleavings and block scheduling live in noodles-bgzf and the OS: no Lean model of this size can exhibit them; repetition explores them."),
 }
+
+CLAIMS.update({
+    "C07": dict(
+        text="Unbounded Lean theorems over byte strings and 64-bit patterns: npy_roundtrip (write then read returns the same shape and bit-identical values, NaN payloads and infinities included), reads_what_it_writes_npy/_text "
+             "(auto-detection + reader accept what either writer emits), text_header_roundtrip, text_shape_tokens, fmtFixed_error (the printed decimal is within half a unit of the p-th decimal of the exact value), "
+             "text_value_roundtrip (the re-read double is the nearest-even binary64 of the printed decimal, all precisions), special values survive as classes; the literal 'within half a unit' of the re-read double is proved unattainable "
+             "(literal_bound_witness: 0.75 at p=1), so the bound decided is half a unit + half an ulp. The std routines are modelled and compared string-for-string / bit-for-bit with Rust on every run; CLI pipes and files for all writer/reader pairs.",
+        note=NOTE_COMMON + " `{:.p}` and f64::from_str (core/std) are modelled, not verified: the models fmtFixed / parseF64 are validated on every run (thousands of values). The 15-significant-digit text->npy->text clause is checked on the model per generated case, not proved. Non-ASCII input is outside the model."),
+    "C15": dict(
+        text="Unbounded Lean theorems: writer_layout (for every shape: magic, version 1.0, u16 little-endian header length making the data offset a multiple of 64, literal dict, space padding, newline, then 8 little-endian bytes per value in row-major order), "
+             "writer_dict_parses, grammar_accepts_numpy (both quote styles, any spacing around ':' and ',', the three keys in any order, optional trailing commas), descr_accepted_iff (exactly byte-order char + one of ten type names), "
+             "header_len_width (v1: 2 bytes, v2/v3: 4), fortran / bad version rejected, readValues_spec, and the decoders: f8 transported unchanged, f4 widened exactly, integers exact up to 2^53 and a nearest double beyond, big-endian = little-endian on reversed bytes; "
+             "model compared byte for byte with the writer on every header-length residue mod 64 and three-way (model, implementation, numpy) on numpy-written files of all dtypes x byte orders x versions.",
+        note=NOTE_COMMON + " numpy (tooling venv) is the interoperability oracle; nom's combinator semantics are re-stated in Lean (pSepList1Opt etc.) and validated on the spelling matrix. Ties-to-even for 64-bit integers beyond 2^53 is compared with numpy/Rust, the theorem states 'a nearest double'."),
+    "C16": dict(
+        text="Unbounded Lean theorems: prefix_rejected (every strict prefix of every file the writer can produce is rejected, wherever the cut falls), extension_rejected (any non-empty extra bytes), the same through auto-detection, "
+             "npy_accept_sound / text_accept_sound (whatever is accepted has exactly the checked product of the declared shape as its number of values, any dtype / header version), token-count and shape edits of text files rejected, "
+             "overflowing shapes rejected also when a zero-length axis masks the overflow (fix 004eece), and the CLI skeleton writes nothing when the read fails; every truncation offset and extension of 20-200 files and all single-token / single-axis edits are run on the real readers and the binary.",
+        note=NOTE_COMMON + " The three subcommands' own computations are a parameter of the CLI skeleton model (specCli); clap is exercised, not modelled."),
+    "C18": dict(
+        text="PARTIAL (proof for sfs's own readers/writers + exploration of the noodles path). Unbounded Lean theorems over a model of BufRead/Read/Write with an arbitrary chunk schedule and failure offset: read_exact / read_line / read_to_end are schedule-free, "
+             "readNpyRd = readNpy and readTextRd = readText for every schedule (one byte at a time, any first chunk), the detection prefix is schedule-free (fix 1c0411c), a reader failing at any offset up to EOF never yields a spectrum (and yields the I/O error itself on valid data), "
+             "write_all through any short-writing writer delivers exactly the bytes, a writer failing before the last byte makes the operation fail. Explored: the genotype reader (noodles VCF/BCF/BGZF) over enumerated first-chunk lengths, 1-byte schedules and injected failures, compared with the create model.",
+        note=NOTE_COMMON + " std::io's default read_exact / read_line / read_to_string / write_all are re-stated in Lean (IoModel) and validated by running the real code over scheduled readers/writers; noodles' readers are not modelled."),
+})
